@@ -81,6 +81,7 @@ def run(ctx):
         (["-o", "out.bin"], "", "out.bin", "bin"), (["-o", "out.raw"], "", "out.raw", "raw"), (["-o", "res"], "", "res", "raw"),
         (["--implicit-bin"], "", "main.bin", "bin"), ([], "make_bin\n", "main.bin", "bin"), ([], "make_raw\n", "main", "raw"),
         ([], "make_wav 'tape.wav'\n", "tape.wav", "bk_wav"), ([], "make_bin 'lib/named.bin'\n", "lib/named.bin", "bin"), ([], "", None, None),
+        (["-o", "sraw"], "", "sraw", "raw"), ([], "make_bin 'cabin'\n", "cabin", "bin"), (["-o", "a.b.bin"], "", "a.b.bin", "bin"),
     ]
     n_runs = 400 if ctx.thorough else 120
     lst_reqs = []
